@@ -2,10 +2,18 @@
 
 package simrt
 
-import "runtime"
+import (
+	"runtime"
+	"unsafe"
+)
 
 // RaceBuild reports whether the binary was built with -race.
 const RaceBuild = true
 
 func raceDisable() { runtime.RaceDisable() }
 func raceEnable()  { runtime.RaceEnable() }
+
+// RaceAcquire / RaceReleaseMerge expose the race detector's annotation calls
+// (used by simsync.Pool to keep sync.Pool's happens-before contract).
+func RaceAcquire(p unsafe.Pointer)      { runtime.RaceAcquire(p) }
+func RaceReleaseMerge(p unsafe.Pointer) { runtime.RaceReleaseMerge(p) }
